@@ -23,20 +23,39 @@ import (
 // reference breaker is fed with the DIRECTORY outcomes only, and a directory question must reach the
 // directory exactly when the reference breaker is closed.
 
+// c15Call is one question put to the directory; Inside are questions put to it while this one is being
+// answered (in flight at the same time as this one, on the same goroutine: the in-memory transport asks
+// them before it answers).
+type c15Call struct {
+	List   bool // the member listing instead of hasMember
+	Fail   bool
+	BadID  bool // hasMember answers 400 "Invalid Input: memberKey" (an account outside the domain)
+	Inside []*c15Call
+}
+
 type c15DirTransport struct {
-	fail  bool
-	badID bool // hasMember answers 400 "Invalid Input: memberKey" (an account outside the domain)
-	hits  int
+	next  *c15Call // the question whose first request is awaited
+	enter func(c *c15Call) int
+	exit  func(tag int, ok bool)
+	ask   func(c *c15Call)
 	seen  []string // outcome of every request that reached the directory, in order: "ok" | "fail"
 }
 
 func (t *c15DirTransport) RoundTrip(r *http.Request) (*http.Response, error) {
-	t.hits++
+	call := t.next
+	tag := t.enter(call)
+	// questions asked while this request is in flight
+	inside := call.Inside
+	call.Inside = nil // (only the first request of a question carries them)
+	for _, in := range inside {
+		t.ask(in)
+	}
+	t.next = call // a question may make a second request
 	code, body := 200, `{"isMember":true}`
 	switch {
-	case t.fail:
+	case call.Fail:
 		code, body = 500, `{"error":{"code":500,"message":"backend error"}}`
-	case t.badID && strings.Contains(r.URL.Path, "/hasMember/"):
+	case call.BadID && strings.Contains(r.URL.Path, "/hasMember/"):
 		code, body = 400, `{"error":{"code":400,"message":"Invalid Input: memberKey","errors":[{"message":"Invalid Input: memberKey","domain":"global","reason":"invalid"}]}}`
 	case strings.HasSuffix(r.URL.Path, "/members"):
 		body = `{"members":[{"email":"u@corp.test","role":"MEMBER","type":"USER"}]}`
@@ -48,6 +67,7 @@ func (t *c15DirTransport) RoundTrip(r *http.Request) (*http.Response, error) {
 	} else {
 		t.seen = append(t.seen, "fail")
 	}
+	t.exit(tag, code == 200)
 	return &http.Response{StatusCode: code, Status: fmt.Sprintf("%d %s", code, http.StatusText(code)), Proto: "HTTP/1.1", ProtoMajor: 1, ProtoMinor: 1,
 		Header: http.Header{"Content-Type": {"application/json"}}, Body: io.NopCloser(strings.NewReader(body)), ContentLength: int64(len(body)), Request: r}, nil
 }
@@ -58,10 +78,25 @@ func c15RunProvider(c *fw.Ctx) {
 	defer rmCred()
 	idp := harness.NewFakeIdP()
 	defer idp.Server.Close()
-	ops := []string{"validation-accepted", "validation-refused", "directory-answers", "directory-fails", "directory-rejects-the-member-key",
+	leaf := func() *c15Call { return &c15Call{} }
+	ops := map[string]func() *c15Call{
+		"directory-answers":                func() *c15Call { return &c15Call{} },
+		"directory-fails":                  func() *c15Call { return &c15Call{Fail: true} },
+		"directory-rejects-the-member-key": func() *c15Call { return &c15Call{BadID: true} },
 		// the directory's other endpoint (the member listing that fills the group cache): one directory, one breaker
-		"directory-listing-answers", "directory-listing-fails"}
+		"directory-listing-answers": func() *c15Call { return &c15Call{List: true} },
+		"directory-listing-fails":   func() *c15Call { return &c15Call{List: true, Fail: true} },
+		// three questions in flight at once (one inside the other)
+		"three-questions-nested": func() *c15Call { return &c15Call{Inside: []*c15Call{{Inside: []*c15Call{leaf()}}}} },
+		// a slow question during which six others are answered one after the other, and then two more at once
+		"six-answered-during-a-slow-one-then-two-at-once": func() *c15Call {
+			return &c15Call{Inside: []*c15Call{leaf(), leaf(), leaf(), leaf(), leaf(), leaf(), {Inside: []*c15Call{leaf()}}}}
+		},
+	}
+	names := []string{"validation-accepted", "validation-refused", "directory-answers", "directory-fails", "directory-rejects-the-member-key", "directory-listing-answers", "directory-listing-fails",
+		"back-off-passes", "three-questions-nested", "six-answered-during-a-slow-one-then-two-at-once"}
 	depth := 5
+	params := c15Params{N: 2, Trip: 3, Reset: 6} // the provider's own settings (google.go)
 	drive(c, "provider/google-directory-breaker", -1, func(x *explore.Exec, owned bool) {
 		gp, err := authp.NewGoogleProvider(&authp.ProviderData{ClientID: "cid", ClientSecret: "cs", SessionLifetimeTTL: time.Hour}, "", "", "admin@corp.test", credFile)
 		if err != nil {
@@ -80,57 +115,75 @@ func c15RunProvider(c *fw.Ctx) {
 			return ans(200, `{"aud":"cid","expires_in":"3000"}`)
 		}
 		var hist []string
-		consecutiveFailures, open := 0, false // the reference breaker: trips at 3 consecutive directory failures, stays open (clock frozen)
+		// the reference breaker (the three-state machine of the core scenarios), fed with DIRECTORY requests
+		// only, each from the moment it reaches the transport to the moment it is answered
+		var m brkModel
+		var sink []emitted
+		var problems [][2]string
+		wall := time.Date(2030, 1, 1, 0, 0, 0, 0, time.UTC)
+		tripped := false
+		dir.enter = func(cl *c15Call) int {
+			tag, okay, why := m.stepBefore(params, true, &sink)
+			if !okay {
+				problems = append(problems, [2]string{"admitted-against-the-reference", "a request reached the directory: " + why})
+			}
+			return tag
+		}
+		dir.exit = func(tag int, ok bool) {
+			if okay, why := m.stepAfter(params, tag, ok, &sink); !okay {
+				problems = append(problems, [2]string{"completion-against-the-reference", why})
+			}
+			if m.s == 2 {
+				tripped = true
+			}
+		}
+		dir.ask = func(cl *c15Call) {
+			before := len(dir.seen)
+			dir.next = cl
+			var derr error
+			if cl.List {
+				_, derr = gp.AdminService.ListMemberships("group@corp.test", 1)
+			} else {
+				_, derr = gp.AdminService.CheckMemberships([]string{"group@corp.test"}, "u@corp.test")
+			}
+			reqs := dir.seen[before:]
+			if len(reqs) == 0 {
+				// the breaker turned the question away
+				if _, okay, why := m.stepBefore(params, false, &sink); !okay {
+					problems = append(problems, [2]string{"rejected-against-the-reference", "a directory question was turned away: " + why})
+				}
+			}
+			hist = append(hist, fmt.Sprintf("   question(list=%v fail=%v) -> directory requests %v err=%v", cl.List, cl.Fail || cl.BadID, reqs, derr != nil))
+		}
 		n := 1 + x.Choose("length", depth)
 		for i := 0; i < n; i++ {
-			op := ops[x.Choose("operation", len(ops))]
+			op := names[x.Choose("operation", len(names))]
+			hist = append(hist, op)
 			switch op {
 			case "validation-accepted", "validation-refused":
 				refused = op == "validation-refused"
 				ok := gp.ValidateSessionState(&sessions.SessionState{AccessToken: "tok", Email: "u@corp.test"})
-				hist = append(hist, fmt.Sprintf("%s -> %v", op, ok))
+				hist = append(hist, fmt.Sprintf("   -> %v", ok))
+			case "back-off-passes":
+				// (an hour: the provider's back-off is at most 200 s)
+				wall = wall.Add(time.Hour)
+				authp.VerifFreezeBreakerClocks(gp, wall)
+				m.now += int64(time.Hour)
 			default:
-				dir.fail, dir.badID = op == "directory-fails" || op == "directory-listing-fails", op == "directory-rejects-the-member-key"
-				before := len(dir.seen)
-				var derr error
-				if strings.HasPrefix(op, "directory-listing") {
-					_, derr = gp.AdminService.ListMemberships("group@corp.test", 1)
-				} else {
-					_, derr = gp.AdminService.CheckMemberships([]string{"group@corp.test"}, "u@corp.test")
-				}
-				reqs := dir.seen[before:]
-				hist = append(hist, fmt.Sprintf("%s -> directory requests %v err=%v", op, reqs, derr))
-				report := func(key, what string) {
-					if owned {
-						c.Res.Violate(fw.Violation{Property: "C15", Key: "C15/provider/google-directory-breaker/" + key, What: what, Scenario: "provider/google-directory-breaker", Choices: x.Choices(),
-							Detail: map[string]interface{}{"history": hist, "reference_breaker_open": open, "reference_consecutive_directory_failures": consecutiveFailures}})
-					}
-				}
-				if len(reqs) == 0 && !open {
-					report("rejected-while-closed", "a directory question was rejected by the breaker although fewer than three consecutive DIRECTORY calls had failed")
-				}
-				// every request that reached the directory must have been admitted by the breaker as it stood
-				// when the request was made; its outcome then counts
-				for _, outcome := range reqs {
-					if open {
-						report("admitted-while-open", "a request reached the directory although three consecutive directory calls had failed and the back-off has not passed")
-						break
-					}
-					if outcome == "fail" {
-						consecutiveFailures++
-						if consecutiveFailures >= 3 {
-							open = true
-						}
-					} else {
-						consecutiveFailures = 0
-					}
-				}
+				dir.ask(ops[op]())
 			}
 		}
 		if owned {
+			for _, pr := range problems {
+				c.Res.Violate(fw.Violation{Property: "C15", Key: "C15/provider/google-directory-breaker/" + pr[0], What: pr[1], Scenario: "provider/google-directory-breaker", Choices: x.Choices(),
+					Detail: map[string]interface{}{"history": hist, "reference_breaker_state": m.s}})
+			}
 			c.Res.Outcome("provider|" + strings.Join(hist, ";"))
-			if open {
+			if tripped {
 				c.Res.Count("positive_histories_that_trip_the_breaker", 1)
+			}
+			if tripped && m.s == 0 {
+				c.Res.Count("positive_histories_that_trip_and_close_again", 1)
 			}
 			if c.Replay != nil {
 				c.Res.Note("%v", hist)
